@@ -254,11 +254,31 @@ def parse_out(text):
 
 
 def run_model(case_lines):
-    p = subprocess.run([driver_path()], input="\n".join(case_lines) + "\n", stdout=subprocess.PIPE,
-                       stderr=subprocess.PIPE, text=True)
-    if p.returncode != 0:
-        raise BuildError("model driver crashed", p.stderr[-2000:])
-    return parse_out(p.stdout)
+    """the model is a pure function of each case line: the lines are spread over several driver processes"""
+    lines = list(case_lines)
+    nproc = max(1, min(NCPU - 2, 12, (len(lines) + 3) // 4))
+    chunks = [lines[k::nproc] for k in range(nproc)]
+    procs = []
+    for ch in chunks:
+        pr = subprocess.Popen([driver_path()], stdin=subprocess.PIPE, stdout=subprocess.PIPE, stderr=subprocess.PIPE, text=True)
+        procs.append((pr, ch))
+    import threading
+    results = [None] * len(procs)
+
+    def feed(k, pr, ch):
+        results[k] = pr.communicate("\n".join(ch) + "\n")
+    threads = [threading.Thread(target=feed, args=(k, pr, ch)) for k, (pr, ch) in enumerate(procs)]
+    for t in threads:
+        t.start()
+    for t in threads:
+        t.join()
+    out = {}
+    for k, (pr, ch) in enumerate(procs):
+        so, se = results[k]
+        if pr.returncode != 0:
+            raise BuildError("model driver crashed", (se or "")[-2000:])
+        out.update(parse_out(so))
+    return out
 
 
 def run_impl(bdir, case_lines, timeout=600):
